@@ -74,6 +74,11 @@ def runSchedule (m : Nat) : Nat → List Nat → List (Nat × Nat)
 def observed (m c : Nat) (sched : List Nat) (t : Nat) : List Nat :=
   ((runSchedule m c sched).filter (fun p => p.1 == t)).map (·.2)
 
+/-- The ids `n` consecutive `fetch_add`s return when the counter holds `c` and nobody interferes. -/
+def seqSupply (m : Nat) : Nat → Nat → List Nat
+  | _, 0 => []
+  | c, n + 1 => c % m :: seqSupply m (c + 1) n
+
 /-! ### what a compilation may do with identifiers and ids
 
   Registers hold keys (`Identifier`s) and ids.  A program can obtain a key only by interning a
@@ -139,7 +144,14 @@ def firstOcc [DecidableEq α] : List α → List α
 /-- Rearrangement by a list of positions (positions outside the list are skipped). -/
 def permuteBy (π : List Nat) (xs : List α) : List α := π.filterMap (xs[·]?)
 
-def getAll (xs : List α) (rs : List Nat) : Option (List α) := rs.mapM (xs[·]?)
+/-- `mapM` in `Option`, by explicit recursion: `none` as soon as one element fails. -/
+def mapOpt (f : α → Option β) : List α → Option (List β)
+  | [] => some []
+  | x :: xs => match f x, mapOpt f xs with
+    | some y, some ys => some (y :: ys)
+    | _, _ => none
+
+def getAll (xs : List α) (rs : List Nat) : Option (List α) := mapOpt (xs[·]?) rs
 
 /-- Run a program.  `regs` are key registers (most recent last), `ids` id registers, `supply` the
     ids this thread's `fetch_add` calls will return (determined by the counter's value and the
@@ -162,14 +174,14 @@ def run : Prog → Interner → List Nat → List Nat → List Nat → Option (L
   | .ordered byKey rs k, st, regs, ids, sup =>
     match getAll regs rs with
     | some ks =>
-      match (if byKey then ascending ks else firstOcc ks).mapM (resolve st), run k st regs ids sup with
+      match mapOpt (resolve st) (if byKey then ascending ks else firstOcc ks), run k st regs ids sup with
       | some names, some out => some (names ++ out)
       | _, _ => none
     | none => none
   | .hashed π rs k, st, regs, ids, sup =>
     match getAll regs rs with
     | some ks =>
-      match (permuteBy π (firstOcc ks)).mapM (resolve st), run k st regs ids sup with
+      match mapOpt (resolve st) (permuteBy π (firstOcc ks)), run k st regs ids sup with
       | some names, some out => some (names ++ out)
       | _, _ => none
     | none => none
@@ -211,10 +223,10 @@ def keywordsProg (byKey : Bool) (callNames : List Str) : Prog :=
 def unknownNames (byKey : Bool) (st : Interner) (declared callNames : List Str) : Option (List Str) :=
   let st₁ := internAll st (declared ++ callNames)
   let keyOf := fun s => find? s st₁
-  match declared.mapM keyOf, callNames.mapM keyOf with
+  match mapOpt keyOf declared, mapOpt keyOf callNames with
   | some ds, some cs =>
     let unk := cs.filter (fun k => !ds.contains k)
-    (if byKey then ascending unk else firstOcc unk).mapM (resolve st₁)
+    mapOpt (resolve st₁) (if byKey then ascending unk else firstOcc unk)
   | _, _ => none
 
 /-- Names of a module's members as `meta.module-variables` lists them when the module has
@@ -233,11 +245,15 @@ def isNameStart (c : Char) : Bool := c.isAlpha || c == '_' || c.toNat ≥ 128
 def isNameChar (c : Char) : Bool := isNameStart c || c.isDigit || c == '-'
 
 /-- CSS identifier without escapes: `-`? name-start name-char*  or  `--` name-char*. -/
-def isIdent : List Char → Bool
+def isIdent (cs : List Char) : Bool :=
+  match cs with
   | [] => false
-  | '-' :: '-' :: rest => rest.all isNameChar
-  | '-' :: c :: rest => isNameStart c && rest.all isNameChar
-  | c :: rest => isNameStart c && rest.all isNameChar
+  | c :: rest =>
+    if c == '-' then
+      match rest with
+      | [] => false
+      | d :: rest' => if d == '-' then rest'.all isNameChar else isNameStart d && rest'.all isNameChar
+    else isNameStart c && rest.all isNameChar
 
 /-- P̂ for the `unique-id()` clause: every result is a valid identifier and they are pairwise distinct. -/
 def uniqueIdsOk (ids : List (List Char)) : Bool := ids.all isIdent && decide ids.Nodup
